@@ -16,5 +16,5 @@ def run(ctx, res):
     res.count("rejecting_transitions", strict["rejecting"])
     res.count("distinct_error_sites", strict["stats"].get("error_sites", 0))
     res.floor("C07.unexp", "rejecting_transitions", 1000)
-    C01.entry_rule(ctx, res, rule="C07.entry", tail_only=True)
+    C01.entry_rule(ctx, res, rule="C07.entry")
     res.notes.append("io_into_utf8 (Stream(p,_) -> InvalidUtf8(p), other variants unchanged) is interpreted as part of C07.entry (tail of parse_slice / parse_slice_with)")
